@@ -66,10 +66,11 @@ def handleTokens (inp : List String) (obs : String) : Verdict :=
         else if m == obs then ok (tags ++ [m]) else diff m tags
       | _ => if m == normObs obs then ok tags else diff m tags
     else
-      let m := modelObsLL c
+      let mres := align c.al (c.call false)
+      let m := modelObsLL c mres
       let agree := m == normObs obs
-      match align c.al (c.call false), align c.al (c.call true) with
-      | .ok mps, _ =>
+      match mres with
+      | .ok mps =>
         let tags := base ++ ["r-" ++ lenTag c.r.length, "q-" ++ lenTag c.q.length] ++
           (if nonEmpty then ["nt", "legal"] else ["legal", "empty-sequence"]) ++
           (if mps.length ≥ 3 then ["gapped-path"] else []) ++
@@ -77,7 +78,7 @@ def handleTokens (inp : List String) (obs : String) : Verdict :=
         match statementLegal c ot with
         | some why => fail why tags
         | none => if agree then ok tags else diff m tags
-      | .error e, _ =>
+      | .error e =>
         let tags := base ++ [if nonEmpty then "nt" else "empty-sequence", "ill-typed", showErr e |>.takeWhile (· ≠ ':') |>.toString,
           match e with
           | .illegalR _ => "illegal-ref-letter" | .illegalQ _ => "illegal-query-letter"
@@ -90,7 +91,7 @@ def handleTokens (inp : List String) (obs : String) : Verdict :=
           else if resQ ≠ "=" then fail "qletters-result-differs-from-letters-result" tags
           else if agree then ok tags else diff m tags
         | _ => fail "unparsable-observation" tags
-      | .panic _, _ =>
+      | .panic _ =>
         -- the model itself panics only for Fitted with an empty query, outside the quantifier
         let tags := base ++ ["empty-sequence", "model-panics"]
         if nonEmpty then fail "model-panic-on-non-empty-input" tags
